@@ -313,7 +313,7 @@ def _mut_job(arg):
                 pool = {k: lib.construct(k, BUILDERS[k]) for k in need}
                 run_query(pool, q1)
                 c0 = list(lib._c(pool[oname]))
-                mut(pool[oname])
+                lib.call(mut, pool[oname])
                 a2 = answer(run_query(pool, q2))
                 pool2 = {k: lib.construct(k, BUILDERS[k]) for k in set(q2[1:])}
                 pool2[oname] = cls(*newc(c0))
@@ -357,8 +357,8 @@ def move_history(oname, vi, q1, q2):
         pool = {k: lib.construct(k, BUILDERS[k]) for k in need}
         if with_q1:
             run_query(pool, q1)
-        pool[oname].move(Vector(*MOVE_VECS[vi]))
-        out.append(answer(run_query(pool, q2)))
+        mv = lib.call(pool[oname].move, Vector(*MOVE_VECS[vi]))
+        out.append(answer(run_query(pool, q2)) + (repr(mv) if isinstance(mv, lib.Raised) else ''))
     return out
 
 
@@ -600,7 +600,14 @@ def _own_job(arg):
         if idx >= i1:
             break
         n += 1
-        probs = run_history(rname, h)
+        try:
+            probs = run_history(rname, h)
+        except (lib.ConstructionFailed, lib.LibTimeout, core.HarnessError):
+            raise
+        except Exception as ex:  # noqa: library code raising on legal operations is a finding, harness code raising is not
+            if not core._raised_in_library(ex):
+                raise
+            probs = [('library-raised:' + type(ex).__name__, str(ex)[:200])]
         for sym, det in probs:
             out.append(Viol('C20|ownership|%s|%s' % (rname, sym), core.enc(('ownership', rname, h)), 'composite owns its data', det,
                             '%s after %r: %s' % (rname, h, sym), family='ownership'))
